@@ -194,6 +194,64 @@ def r18_5(ctx, rep):
         raise MechanismMissing(R, "per-variable element list (bound to [] and extended into the group's list) not found")
 
 
+def delay_element_correspondence(ctx, rep, R):
+    """element DelayArguments built by _expand_vectors: `<old argument>.expr[I]` with I the multi-index of an enclosing
+    `for I in np.ndindex(<shape>)` loop — the same I the element's name is built from"""
+    fn = ctx.func(MODEL, "Model._expand_vectors", R)
+    n = 0
+    for c in calls(fn):
+        if not ((call_name(c) or "").split(".")[-1] == "DelayArgument" and c.args and isinstance(c.args[0], ast.Subscript)
+                and isinstance(c.args[0].value, ast.Attribute) and c.args[0].value.attr == "expr"):
+            continue
+        n += 1
+        sl = c.args[0].slice
+        loopvars = {}
+        p_ = getattr(c, "_parent", None)
+        while p_ is not None and p_ is not fn:
+            if isinstance(p_, ast.For):
+                for t in ast.walk(p_.target):
+                    if isinstance(t, ast.Name):
+                        loopvars[t.id] = p_
+            p_ = getattr(p_, "_parent", None)
+        lp = loopvars.get(sl.id) if isinstance(sl, ast.Name) else None
+        ok = lp is not None and "np.ndindex(" in norm(lp.iter) and isinstance(lp.target, ast.Name)
+        rep.ob(R, SITE, "delayed element `%s`" % norm(c.args[0]), ok,
+               "the element of a delayed array expression that belongs to the scalar named by multi-index I is expr[I]; `%s` is indexed by "
+               "something else (a running position: CasADi's single-index access is column-major, the names are generated row-major, so for "
+               "a matrix the delayed expression and the delay state's name no longer belong together)" % norm(c.args[0]))
+    if n < 1:
+        raise MechanismMissing(R, "no element-wise DelayArgument(<argument>.expr[...], ...) found in _expand_vectors")
+
+
+@SPEC.rule(
+    "R18.6",
+    "delayed array expressions are split element by element with the same multi-index their delay states are named with",
+)
+def r18_6(ctx, rep):
+    delay_element_correspondence(ctx, rep, "R18.6")
+
+
+@SPEC.rule(
+    "R18.7",
+    "arrays inside nested component arrays count: _modelica_shape has one entry per nesting level, and the test that decides whether "
+    "a variable is expanded, as well as every np.ndindex enumeration of its elements, looks at the whole of it — never at a single "
+    "level (shape[-1], shape[0]): `Tank t[2]` with a scalar member h has shape ((2,), (None,)) and t.h is a 2-vector",
+)
+def r18_7(ctx, rep):
+    R = "R18.7"
+    fn = ctx.func(MODEL, "Model._expand_vectors", R)
+    tests = [n for n in ast.walk(fn) if isinstance(n, (ast.If, ast.IfExp, ast.While)) and "_modelica_shape" in norm(n.test)]
+    enums = [c for c in calls(fn) if (call_name(c) or "").endswith("ndindex") and "_modelica_shape" in norm(c)]
+    if not tests or len(enums) < 1:
+        raise MechanismMissing(R, "expansion test on _modelica_shape / np.ndindex enumerations not found (%d / %d)" % (len(tests), len(enums)))
+    for what, nodes in (("expansion test", [t.test for t in tests]), ("element enumeration", enums)):
+        for e in nodes:
+            part = [norm(x) for x in ast.walk(e) if isinstance(x, ast.Subscript) and norm(x.value).endswith("._modelica_shape")]
+            rep.ob(R, SITE, "%s `%s` reads every nesting level" % (what, norm(e)[:60]), not part,
+                   "`%s` looks at one level of the nested shape only: a scalar member of a component array (or an array member of a scalar "
+                   "component) is judged by the wrong level and is left unexpanded or expanded with the wrong element count" % (part[0] if part else ""))
+
+
 # -- seeded variants ---------------------------------------------------------
 from ._mut import replace_in_func  # noqa: E402
 
@@ -252,6 +310,35 @@ def _m5(mod):
         for x in ast.walk(fn):
             if isinstance(x, ast.Assign) and norm(x) == "val = value[ind]":
                 x.value.slice = ast.parse("len(expanded_symbols)", mode="eval").body
+                return True
+        return False
+
+    return mod if replace_in_func(mod, "Model._expand_vectors", edit) else None
+
+
+@SPEC.mutant("delayed expression split by running position", MODEL, "R18.6", "delayed element")
+def _m_delay_pos(mod):
+    def edit(fn):
+        for lp in ast.walk(fn):
+            if isinstance(lp, ast.For) and "np.ndindex(" in norm(lp.iter) and "DelayArgument" in norm(lp):
+                lp.target = ast.Tuple(elts=[ast.Name(id="_k", ctx=ast.Store()), lp.target], ctx=ast.Store())
+                lp.iter = ast.Call(func=ast.Name(id="enumerate", ctx=ast.Load()), args=[lp.iter], keywords=[])
+                for c in ast.walk(lp):
+                    if isinstance(c, ast.Subscript) and norm(c.value).endswith(".expr"):
+                        c.slice = ast.Name(id="_k", ctx=ast.Load())
+                return True
+        return False
+
+    return mod if replace_in_func(mod, "Model._expand_vectors", edit) else None
+
+
+@SPEC.mutant("expansion decided by the innermost shape level only", MODEL, "R18.7", "reads every nesting level")
+def _m_lastlevel(mod):
+    def edit(fn):
+        for n in ast.walk(fn):
+            if isinstance(n, ast.Compare) and norm(n.left).startswith("set(") and "_modelica_shape" in norm(n.left):
+                n.left = ast.Subscript(value=n.left.args[0], slice=ast.UnaryOp(op=ast.USub(), operand=ast.Constant(value=1)), ctx=ast.Load())
+                n.comparators = [ast.parse("(None,)", mode="eval").body]
                 return True
         return False
 
